@@ -77,6 +77,25 @@ def c12_withheld_script(stype, scen, k, after, between=False):
     return {"scen": scen, "sock": stype, "ops": ops, "tag": "withheld/%d/%s/%d" % (k, after, between), "nojitter": True}
 
 
+def c12_budget_script(stype, scen, k, size, n):
+    """a publisher that publishes in a tight loop under a runtime's cooperative budget (tokio's): its task gets k transport operations
+    per poll of the task, further writes are refused - they answer Pending without looking at the connection - until the task has
+    given control back.  Every subscriber's connection accepts everything it is offered: nobody may miss a message."""
+    ops = []
+    for c in (1, 2):
+        ops.append({"op": "attach", "c": c, "ptype": "SUB"})
+        ops.append({"op": "psend", "c": c, "m": [hx(b"\x01t")], "note": {"k": "sub", "t": list(b"t")}})
+        if stype == "XPUB":
+            ops += [{"op": "recv"}, {"op": "recv_drop"}]
+    ops += [{"op": "settle"}, {"op": "budget", "k": k, "writes": True}]
+    ms = []
+    for i in range(n):
+        first = b"t%d-%d-" % (scen, i) + b"b" * size
+        ms.append([hx(first), hx("tag%d.%d" % (scen, i))])
+    ops += [{"op": "send_burst", "ms": ms}, {"op": "budget"}, {"op": "settle"}, {"op": "quiescent"}]
+    return {"scen": scen, "sock": stype, "ops": ops, "tag": "budget/%d/%d/%d" % (k, size, n), "nojitter": True}
+
+
 def c12_script(rng, stype, scen):
     n = rng.randint(2, 6)
     ops = []
